@@ -1030,7 +1030,8 @@ class EarlyDates(Sub):
 
 
 EXACT_POOL = [1.0, 0, 1, 2.0, -1, 2, 3, 7, 0.0, True, False, None, '3', '-12', '+5', '0', '007',
-              2 ** 53, 2 ** 53 + 1, 10 ** 17 + 1, -(2 ** 53 + 1), '9007199254740993']
+              2 ** 53, 2 ** 53 + 1, 10 ** 17 + 1, -(2 ** 53 + 1), '9007199254740993',
+              '-' + '0' * 40000 + '5']      # the last: forty thousand leading zeros spell no larger a number
 
 
 def exact_int(v):
@@ -1042,14 +1043,20 @@ def exact_int(v):
     if isinstance(v, int):
         return v
     if isinstance(v, str):
-        return int(v)
+        sign = -1 if v.startswith('-') else 1
+        return sign * int(v.lstrip('+-').lstrip('0') or '0')
     return None
+
+
+def _brief(v):
+    r = repr(v)
+    return r if len(r) < 60 else '%s...%s (%d characters)' % (r[:12], r[-6:], len(v))
 
 
 class ExactIntegers(Sub):
     name = 'c06.exact_integers'
-    rule = ('all ordered pairs over 22 operands (integers incl. adjacent ones above 2^53, logicals, blank, text spelling an '
-            'integer with sign / leading zeros, and the floats 1.0, 2.0, 0.0) under + - *: when both operands are integer-'
+    rule = ('all ordered pairs over 23 operands (integers incl. adjacent ones above 2^53, logicals, blank, text spelling an '
+            'integer with sign / leading zeros (up to 40 000 of them), and the floats 1.0, 2.0, 0.0) under + - *: when both operands are integer-'
             'typed the result is the EXACT integer (no detour through a double) and (a op b)&"" is its digit string; with a '
             'float operand the numeric value is checked; non-trivial = both operands integer-typed')
     min_cases = 400
@@ -1066,7 +1073,7 @@ class ExactIntegers(Sub):
         for op, fn in (('+', lambda x, y: x + y), ('-', lambda x, y: x - y), ('*', lambda x, y: x * y)):
             raw = env.ev('xa%sxb' % op, vars={'xa': a, 'xb': b})
             got = env.out(raw)
-            where = 'xa%sxb with xa=%r, xb=%r' % (op, a, b)
+            where = 'xa%sxb with xa=%s, xb=%s' % (op, _brief(a), _brief(b))
             if ia is not None and ib is not None:
                 env.nt()
                 want = fn(ia, ib)
